@@ -560,7 +560,7 @@ class Interp:
             ev(name, idx, 'begin')
             try:
                 res = await collect(*[self.activity(a) for a in st['acts']])
-            except (ProgErr, Concurrent) as e:
+            except (ProgErr, Concurrent, TaskCancelled, TaskClosed) as e:
                 ev(name, idx, 'got_exc', self.describe(e))
             else:
                 ev(name, idx, 'got', list(res))
